@@ -121,6 +121,46 @@ CHECKS["C19"] = dict(
          "Known findings are keyed by the semantic call site (top three library frames) of the std::terminate / signal, never by allocation index.",
     technique="TLA+ contract (TLC) + exhaustive fault enumeration over allocation indices, process per fault, each execution validated by TLC")
 
+CHECKS["C04"] = dict(
+    category="model_checking", design_ref="DESIGN.md §5 C04",
+    text="Serializer.tla states the obligation: either an error and the tree is not representable, or the bytes decode in the declared encoding and parse back "
+         "(line-end and attribute-value normalisation applied) to exactly Tree(events); and the two serializers agree. TLC model-checks the transcribed escaping rules "
+         "(SerializerImpl) and staging buffers (WriterBufferImpl, buffer 8 instead of 512: conservation, bounds, no split of a multi-unit sequence) against it, exports one "
+         "operation history per buffer transition, and validates every recorded run of the factory serializer, the legacy FormatterToXML and XalanTransformer end to end "
+         "(31 character classes x 6 encodings x 2 XML versions x 6 contexts, every offset 505..516 around the 512-unit buffer; a sample under ASan).",
+    note="Trusted: expat (pyexpat) as the parser independent of Xerces, Python codecs, a Python XML 1.1 front end, the event-script renderer, the recording Writer subclasses, TLC. "
+         "Not covered: indent, doctype/standalone options, namespace prefixes, windows-1252 U+0080..U+009F.",
+    technique="TLA+ serializer obligation + transcribed escaping/buffer models (TLC) + per-transition behaviour replay + TLC trace validation with expat parse-back")
+CHECKS["C06"] = dict(
+    category="model_checking", design_ref="DESIGN.md §5 C06",
+    text="TLC checks that XalanTransformer's transcribed bookkeeping (TransformerImpl: parameter holders, error buffer, EnsureReset) refines the abstract life cycle "
+         "(Transformer.tla) for all bounded call histories (compile, parse, set/clear params, install/uninstall function, destroy, transform with 10 outcome classes) and "
+         "exports one shortest history per view. Each is replayed on ONE real XalanTransformer and every distinct (stylesheet, source, params, functions) tuple on a newly "
+         "constructed one; TLC accepts an execution only if every Transform equals the fresh result in status, output bytes and error text, and getLastError() is empty "
+         "exactly when the call succeeded.",
+    note="Trusted: TLC, harness/c06.cpp (reports calls and returns only), a fresh transformer in the same process as reference. Stacks that are only touched at the top leave "
+         "no behavioural trace; the optional guarded hook hooks/H1-residue.patch (not applied) would expose them.",
+    technique="TLA+ life-cycle model (TLC) + behaviour export (hist/VIEW/-dump) + TLC trace validation against fresh-transformer oracle")
+CHECKS["C14"] = dict(
+    category="model_checking", design_ref="DESIGN.md §5 C14",
+    text="ResultTree.tla gives Requested (the expanded name each constructing instruction asks for, XSLT 7.1.1-7.1.4, 7.5, 11.3 incl. namespace-alias, attribute sets, "
+         "exclude-result-prefixes) and Resolve (namespace resolution of the raw result tree with well-formedness faults). TLC checks exhaustively that the transcribed "
+         "fix-up algorithm (NsFixupImpl) meets the obligations on every nest of <= 3 instructions except in named KD classes, each shown real by a witness; systematic and "
+         "seeded stylesheets run on the real XalanTransformer and both the raw FormatterListener tree and the expat re-parse of the serialised output are validated against "
+         "ResultTree only. A rejected case is KNOWN only if the recorded tree equals the transcription's output and every fault is explained by a KD class.",
+    note="Trusted: TLC, harness/c14.cpp recorder, expat as independent namespace-aware parser, the generator's legality tracking. Prefix spellings are never compared.",
+    technique="TLA+ abstract obligations + implementation-shaped transcription (bounded exhaustive TLC) + TLC trace validation of two observations + exact triage")
+CHECKS["C18"] = dict(
+    category="model_checking", design_ref="DESIGN.md §5 C18",
+    text="Numeral.tla states number()/string()/round/floor/ceiling on DECIMAL NUMERALS (sign, digits, scale): a DFA for the Number lexical rule, the canonical string form, "
+         "the output grammar, exact rounding with negative zero, and the exact binary expansion giving the IEEE-754 encoding as four 16-bit words. TLC model-checks the DFA "
+         "against a declarative grammar on all strings of length <= 5/6, Canon idempotence, rounding laws and the encoding; TLC enumerates the numerals (1-4 significant digits "
+         "x 10^-45..10^120 x sign) and all strings; every case runs on the real toDouble / NumberToDOMString / round / XPathEvaluator in its own process (plus ASan at the "
+         "magnitude boundaries) and TLC recomputes the expected string or bit pattern for every recorded event.",
+    note="Trusted: TLC; two IEEE-754 facts (<= 15 significant digits map injectively to doubles; |x - v| <= v*2^-53); correctly rounding glibc strtod/printf. For numerals of more "
+         "than 15 significant digits only grammar, sign and the round trip number(string(x)) = x are decided.",
+    technique="TLA+ numeral arithmetic as oracle (TLC trace validation) + TLC-checked laws + process-isolated execution")
+
 NOT_YET = {
 }
 
